@@ -321,7 +321,7 @@ def obligations_of_check(desc, mod2unit):
     return names
 
 
-def kani_run_package(scratch, cwd, package, harnesses, tier, logdir, tag, extra_flags=None):
+def kani_run_package(scratch, cwd, package, harnesses, tier, logdir, tag, extra_flags=None, max_jobs=0):
     """One `cargo kani` invocation; returns (json_or_None, output, note, wall)."""
     jpath = os.path.join(scratch.work, "kani-%s.json" % tag)
     if os.path.exists(jpath):
@@ -333,7 +333,10 @@ def kani_run_package(scratch, cwd, package, harnesses, tier, logdir, tag, extra_
     cmd += KANI_FLAGS
     for h in harnesses:
         cmd += ["--harness", h["name"]]
-    cmd += ["-j", str(min(JOBS, max(1, len(harnesses)))), "--output-format", "terse",
+    jobs = min(JOBS, max(1, len(harnesses)))
+    if max_jobs:
+        jobs = min(jobs, max_jobs)
+    cmd += ["-j", str(jobs), "--output-format", "terse",
             "--export-json", jpath, "--harness-timeout", "%ds" % tmo]
     cmd += (extra_flags or [])
     t0 = time.time()
@@ -527,14 +530,16 @@ def run_kani_units(scratch, units, tier, res, logdir):
     by_pkg = {}
     for u in units:
         if u["engine"] == "kani":
-            by_pkg.setdefault((u["package"], tuple(u.get("cbmc_args", []))), []).append(u)
-    for (pkg, cargs), us in by_pkg.items():
+            # `max_jobs`: memory-heavy units (several GB of CBMC per harness) run in a
+            # group of their own with a capped -j, so that a run never exhausts RAM
+            by_pkg.setdefault((u["package"], tuple(u.get("cbmc_args", [])), int(u.get("max_jobs", 0))), []).append(u)
+    for (pkg, cargs, max_jobs), us in by_pkg.items():
         hs = [h for u in us for h in u["harness"]]
         if not hs:
             continue
         extra = (["--cbmc-args"] + list(cargs)) if cargs else None
-        tag = pkg + ("-" + hashlib.sha256(" ".join(cargs).encode()).hexdigest()[:6] if cargs else "")
-        data, out, note, wall, cmd = kani_run_package(scratch, scratch.src, pkg, hs, tier, logdir, tag, extra)
+        tag = pkg + ("-" + hashlib.sha256(" ".join(cargs).encode()).hexdigest()[:6] if cargs else "") + ("-j%d" % max_jobs if max_jobs else "")
+        data, out, note, wall, cmd = kani_run_package(scratch, scratch.src, pkg, hs, tier, logdir, tag, extra, max_jobs)
         res.cmds.append(cmd)
         kani_collect(data, out, note, us, hs, res, pkg)
         log("  kani -p %s: %d harnesses, wall %.0fs%s" % (pkg, len(hs), wall, " (" + note + ")" if note else ""))
